@@ -540,3 +540,12 @@ Definition lexicon_of_file (file : bytes) (off : N) : lexicon :=
 (* WordParams::get_params *)
 Definition file_params (file : bytes) (off wid : N) : option (Z * Z * Z) :=
   read_params (skipn (N.to_nat (off + 4 + 6 * wid)) file).
+
+(* ------------------------------------------------------------------ UTF-8 *)
+(* str::as_bytes: the bytes of a text (the keys of the index trie are the UTF-8 bytes of the index form) *)
+Definition utf8_of_cp (c : N) : bytes :=
+  if c <? 128 then [c]
+  else if c <? 2048 then [192 + c / 64; 128 + c mod 64]
+  else if c <? 65536 then [224 + c / 4096; 128 + (c / 64) mod 64; 128 + c mod 64]
+  else [240 + c / 262144; 128 + (c / 4096) mod 64; 128 + (c / 64) mod 64; 128 + c mod 64].
+Definition utf8_bytes (s : text) : bytes := flat_map utf8_of_cp s.
